@@ -383,6 +383,25 @@ def _run(tape, out, elfi, root):
         r.nodes[c].setdefault('named', {})[pname] = par
         return 'add-named-edge'
 
+    def add_explicit_slots(P):
+        """A node without parents gets two positional parents through
+        model.add_edge(parent, child, <int>) with explicit slot numbers, in either order."""
+        m, r = P.model, P.ref
+        pub = sorted(r.nodes)
+        if len(pub) < 2:
+            return None
+        pars = tape.shuffle('slot_parents', pub)[:2]
+        o = mk_op('op')
+        name = fresh('o')
+        node = elfi.Operation(o, model=m, name=name)
+        order = tape.choice('slot_order', [(0, 1), (1, 0)])
+        for k_ in order:
+            m.add_edge(pars[k_], name, k_)
+        r.nodes[name] = {'cls': 'Operation', 'op': o.key, 'pos': [('n', pars[0]), ('n', pars[1])],
+                         'param': False, 'meta': False}
+        out.probes['explicit_slots_' + ('in_order' if order == (0, 1) else 'reversed')] += 1
+        return 'add-explicit-slots'
+
     def do_copy(P):
         k = P.model.copy()
         parties.append(Party(k, P.ref.clone(), 'copy'))
@@ -402,12 +421,13 @@ def _run(tape, out, elfi, root):
         else:
             opname = tape.choice('op', ['add', 'add', 'become', 'remove', 'set_params',
                                         'set_observed', 'copy', 'saveload', 'set_meta', 'add',
-                                        'copy', 'named_edge', 'become'])
+                                        'copy', 'named_edge', 'become', 'explicit_slots'])
         if opname in ('copy', 'saveload') and len(parties) >= 4:
             opname = 'add'
         fn = {'add': add_node, 'become': become, 'remove': remove, 'set_params': set_params,
               'set_observed': set_observed, 'copy': do_copy, 'saveload': do_saveload,
-              'set_meta': set_meta, 'named_edge': add_named_edge}[opname]
+              'set_meta': set_meta, 'named_edge': add_named_edge,
+              'explicit_slots': add_explicit_slots}[opname]
         try:
             done = fn(P)
         except Exception as e:
